@@ -832,27 +832,45 @@ def sanity_style():
 class C19(Check):
     pid = 'C19'
     props_mod = 'OmbottModel.Props.C19'
-    tables = ['router', 'routeurl']
+    tables = ['router', 'routeurl', 'routerbuiltin']
     design_ref = '6/C19'
     anchors = ['ombott/router/radirouter.py', 'ombott/router/filter_factory.py']
     level_text = ('Lean theorems over the model of Route.url (marker loop with slice bookkeeping, positional anonymous '
                   'arguments, formatters, sanity check): the built URL is the rule\'s literal runs verbatim and in order '
                   'with one formatted value per wildcard; a rule matched by a path is matched again by the URL built '
-                  'from the matched values, with the same values (stated for the rule-by-rule matcher and for the tree of a router holding only that rule) - proved outright for plain and int wildcards '
-                  '(concrete int filter), under a named per-wildcard stability hypothesis for re/path/float; model '
-                  'tied to the code by differential round trips resolve -> url -> resolve.')
-    level_note_extra = ('re/path/float filters are parameters (real handler and formatter answers shipped); their stability '
-                        'is validated by correspondence and search, not proved; rex selectors by correspondence only')
+                  'from the matched values, with the same values (stated for the rule-by-rule matcher and for the tree of a '
+                  'router holding only that rule). Proved with NO hypothesis on filters for rules whose wildcards are plain, '
+                  'int, float or path (url_rematch_builtin, url_rematch_tree_builtin: the handlers of int/float/path and the '
+                  'float formatter are concrete Lean functions, Model/RouterBuiltinEnv.lean), under decidable side conditions: '
+                  'no int/float wildcard directly after another wildcard; after no path wildcard does the literal it looks '
+                  'ahead for stand again before the first newline in the URL built for the rest of the rule (laterLit - the '
+                  'exact condition, stable_path_wildcard; automatic when no int/float wildcard follows the path wildcard); '
+                  'every float value is read back from its formatted text and that text has a decimal point or is not '
+                  'followed by .digit (floatSide - automatic for every numeral of <= 15 significant digits below 1e16, '
+                  'float_value_ok_exact, url_rematch_builtin_exact). The excluded shapes are shown to fail by model witnesses '
+                  '(= the recorded findings). For user regular expressions (re) the per-wildcard stability hypothesis '
+                  'AllStable stays a named assumption (url_rematch). Model tied to the code by differential round trips '
+                  'resolve -> url -> resolve run on the concrete handlers, by >= 1200 direct probes per run of the live '
+                  'int/float/path handlers and of the live float formatter against the concrete Lean functions, by the '
+                  'regenerated probe tables (decide), and by re-stating the side conditions on the real objects.')
+    level_note_extra = ('re filters are parameters (real handler answers shipped); their stability is validated by '
+                        'correspondence and search, not proved; rex selectors by correspondence only; float(text) is computed '
+                        'by the model for numerals of <= 15 significant digits between 1e-291 and 1e300 and is a parameter '
+                        '(shipped) beyond')
     rule = ('rules printed from ASTs in every syntax flavour (literal runs of all lengths, adjacent wildcards, plain/int/'
             'float/path/re/rex filters, anonymous and named wildcards) x paths generated from the rule (texts whose '
             'canonical form differs: 007, -0, 5 -> 5.0, non-ASCII digits; empty matches; greedy path filters) and '
             'mutated; round trip resolve -> Route.url(*anon, **named) -> resolve on a router holding only that rule, '
-            'plus direct url() calls with wrong / missing / ill-typed arguments; non-trivial = the path matched a '
-            'rule with a wildcard')
-    assumptions = ['re matching of the filter masks other than int is taken from the running interpreter (handler results shipped)',
-                   'the float formatter is a parameter (its answers shipped); Stable for re/path/float wildcards is a named hypothesis',
-                   'rule text contains no CR and no repeated wildcard name (as for C01)',
-                   'tree lookup on a single-rule router = rule-by-rule matcher: C01 theorems get_eq_spec/insert_wf/insert_denote (imported by url_rematch_tree, selector-free environments) and checked on every correspondence line']
+            'plus direct url() calls with wrong / missing / ill-typed arguments; rules of built-in wildcards only, dense '
+            'in the side-condition shapes (look-ahead literal re-created by a canonical int/float text, values from 1e16, '
+            '16/17-digit numerals, newlines), with the hypotheses of url_rematch_builtin evaluated on both sides; random '
+            'texts / doubles through the live handlers and the live float formatter; non-trivial = the path matched a '
+            'rule with a wildcard, or a filter / formatter probe')
+    assumptions = ['re matching of user regular expressions (re / rex filters) is taken from the running interpreter (handler results shipped); Stable for re wildcards is a named hypothesis (AllStable of url_rematch)',
+                   'the concrete int / float / path handlers and the concrete float formatter of Model/RouterBuiltinEnv.lean are the live ones: tied by the regenerated probe tables (C01: builtin_env_probes_agree; C19: builtin_float_fmt_agrees), by direct differential probes on random texts and doubles and by the round trips; within the model their stability is proved',
+                   'float(text) equals the numeral itself (repr shows its digits) for numerals of at most 15 significant digits between 1e-291 and 1e300: the 15-digit round-trip guarantee of IEEE-754 binary64 plus shortest repr, not proved in Lean (validated differentially); beyond that domain the converter is a parameter whose value must meet the decidable side condition floatSide',
+                   'rule text contains no CR and no repeated wildcard name (as for C01); a path wildcard looks ahead for the literal run that follows it (what the parser configures) and is not directly followed by another wildcard',
+                   'tree lookup on a single-rule router = rule-by-rule matcher: C01 theorems get_eq_spec/insert_wf/insert_denote (imported by url_rematch_tree, selector-free environments; the concrete environment is selector-free by proof) and checked on every correspondence line']
 
     def __init__(self):
         self.stats = {}
